@@ -3,6 +3,7 @@ import Pycoin.DriverLib.TxText
 import Pycoin.Model.SignSecp
 import Pycoin.DriverLib.FastSecp
 import Pycoin.Model.Sighash
+import Pycoin.Model.WhoSigned
 /-!
 C05 ops.
 
@@ -12,6 +13,7 @@ C05 ops.
     c05_sign_solver keys nsigs existing lookup ht placeholder digests
     c05_sign_tx coin mech tx unspents p2sh ht subset keys passes digests   (passes := idxs ":" valid "|" …; mech is for the harness)
     c05_keychain script
+    c05_who_signed coin tx unspents                 public_pairs_signed of every input: inputs separated by "|", signers "x.y.sigtype" by ";" ("~" none)
 
     lookup   := "~" | entry "," entry …      entry := h160 "=" secret "." x "." y "." ("c"|"u")
     digests  := "~" | (ht "=" z) "," …       (sign_solver)        | (idx "." ht "=" z) "," …   (sign_tx)
@@ -201,6 +203,33 @@ def handle : Handler := fun op args =>
         some s!"ok {sh a} {sh b} {sv va} {sv vb}"
       | .error e => some ("err " ++ e.tag)
     | .error _ => some s!"ok {sh a} {sh b} - -"
+  | "c05_who_signed", [coin, tx, us] => do
+    let tx ← parseTx? tx
+    let us ← parseUnspents? us
+    let cls ← (Gen.Sign.coinClass.find? (·.1 = coin)).map (·.2)
+    let c ← parseCoin? cls
+    let one := fun (i : Nat) (tin : TxIn) =>
+      let puzzle := match us[i]?.join with | some u => u.script | none => []
+      let sighash := fun (wit : Bool) (code blob : Bytes) (ht : Nat) =>
+        match (if wit then Sighash.witnessSighashF c tx us code [blob] i ht else Sighash.sighashF c tx us code [blob] i ht) with
+        | .ok z => some (z : Int)
+        | .error _ => none
+      whoSignedInput crypto sighash puzzle tin.script tin.witness
+    let rec go (i : Nat) (ins : List TxIn) : Except WErr (List String) :=
+      match ins with
+      | [] => .ok []
+      | tin :: r =>
+        match one i tin with
+        | .error e => .error e
+        | .ok l =>
+          match go (i + 1) r with
+          | .error e => .error e
+          | .ok rest =>
+            let sh := l.map fun (Q, t) => match Q with | some (x, y) => s!"{x}.{y}.{t}" | none => s!"inf.{t}"
+            .ok ((if sh.isEmpty then "~" else ";".intercalate sh) :: rest)
+    match go 0 tx.ins with
+    | .error e => some ("err " ++ e.tag)
+    | .ok l => some ("ok " ++ (if l.isEmpty then "-" else "|".intercalate l))
   | "c05_keychain", [script] => do
     match ← kcRun (script.splitOn ",") {} with
     | .error e => some ("err " ++ e.tag)
